@@ -211,8 +211,8 @@ Invoke(S, r, cbk, cargs, thisv) ==
                !.frozen = IF detach THEN old ELSE S.frozen,
                !.isFrozen = S.isFrozen \/ detach]
 ThisFor(cbk, devs) == IF cbk.hasThis /\ "Dev_ThisArgIgnored" \notin devs THEN cbk.this ELSE Undef
-Fin(S, out) == [out |-> out, alt |-> <<>>, store |-> S.store, log |-> S.log, perm |-> "",
-                opaque |-> IF S.thr # <<>> /\ S.thr[1].cls = "value" THEN "Dev_CallbackThrow" ELSE ""]
+\* (a throw inside a callback used to be the opaque deviation Dev_CallbackThrow; repaired upstream, it is judged exactly now)
+Fin(S, out) == [out |-> out, alt |-> <<>>, store |-> S.store, log |-> S.log, perm |-> "", opaque |-> ""]
 
 IterMethods == {"forEach", "map", "filter", "find", "findIndex", "some", "every"}
 \* the result when the iteration ran to the end
